@@ -36,6 +36,7 @@ class BaseRNG(np.random.Generator):
     def __init__(self, seed=0):
         super().__init__(np.random.PCG64(seed))
         self.events = []
+        self.raw_p = []          # the probabilities of every choice as the floats handed in (events carry them as fractions)
 
     # ---- decision points ----
     def choice(self, a, size=None, replace=True, p=None, axis=0, shuffle=True):
@@ -61,6 +62,7 @@ class BaseRNG(np.random.Generator):
             raise ValueError("probabilities are not non-negative / do not sum to 1")
         ev = {"kind": "choice", "a": arr, "p": [to_frac(x) for x in pv], "k": -1}
         self.events.append(ev)
+        self.raw_p.append(pv)
         k = self._pick(ev, pv)
         if not (0 <= int(k) < len(arr)):
             ev["k"] = int(k)
